@@ -139,8 +139,8 @@ def _get_ensures(a, r):
     rows = a.self.rows
     n = z3.Length(rows)
     idx = a.slicetuple
-    if z3.is_expr(idx):                 # int
-        return [("post.row_itself", r == rows[idx])]
+    if z3.is_expr(idx):                 # int: a negative row number counts from the last row
+        return [("post.row_itself", r == rows[z3.If(idx < 0, idx + n, idx)])]
     if S.is_slice(idx):
         return [("post.rows_of_the_slice", r == S.pyslice(rows, idx.start, idx.stop))]
     rs, cs = idx
@@ -155,10 +155,10 @@ def _get_ensures(a, r):
 
 getitem = Contract(
     M + "FSArray.__getitem__", "C04", ["self", "slicetuple"], kind="method",
-    shapes=[Shape("row", dict(self=_arr(), slicetuple=IntT(0))),
+    shapes=[Shape("row", dict(self=_arr(), slicetuple=IntT())),
             Shape("rows", dict(self=_arr(), slicetuple=SliceT(IntT(0), IntT(0), None))),
             Shape("region", dict(self=_arr(), slicetuple=TupleT(SliceT(IntT(0), IntT(0), None), SliceT(IntT(0), IntT(0), None))))],
-    raises={"IndexError": lambda a: (a.slicetuple >= z3.Length(a.self.rows)) if z3.is_expr(a.slicetuple) else False},
+    raises={"IndexError": lambda a: Or(a.slicetuple >= z3.Length(a.self.rows), a.slicetuple < -z3.Length(a.self.rows)) if z3.is_expr(a.slicetuple) else False},
     ensures=_get_ensures,
     callees={"normalize_slice": "formatstring:normalize_slice"})
 
